@@ -1001,7 +1001,9 @@ reg("C04", [eng_deadline_pure, eng_deadline_probes((None,), M.mon_deadline, "dea
     level_text="Proved: deadline = round(now + max(10,dl)) with t <= round t < t + 100 ms for every instant; a lease "
                "survives every turn before its deadline; an expiry turn requeues exactly the overdue leases; the timer "
                "has fired by the first 1 ms tick at/after the deadline and then nothing overdue stays leased. " + SEQ_NOTE,
-    level_note="Timer behaviour (1 ms ticks, firing order) is tokio's, assumed as modelled; validated by the probe stream.")
+    level_note="Timer behaviour (1 ms ticks, firing order) is tokio's, assumed as modelled; validated by the probe stream.",
+    generated=[("expiry-branch-unconditional", lockgate.expiry_gate, "ExpiryCheck")])
+
 
 reg("C05", [eng_id_lists(M.mon_deadline, ("nack", "mod", "sackmod")), eng_subset_lists(M.mon_deadline, ("nack", "mod")), eng_deadline_pure, eng_deadline_probes((0, 1, 5, 30, 599, 600, 700, -1), M.mon_deadline, "modify-probes"),
             eng_data_random(M.mon_deadline, {"MOD"}, streams=True, tag="data-stream-random"),
